@@ -157,7 +157,7 @@ func TestBindStress(t *testing.T) {
 				}()
 			}
 			close(start)
-			wg.Wait()
+			world.WaitOrDiagnose(t, &wg, "C09/concurrent", fmt.Sprintf("three bind requests for one server feature at once (round %d)", r))
 			world.Record(world.Hash("stress", r), true, "stress/bind")
 			judgeContention(t, w, attempts, counters, fmt.Sprintf("free-running round %d", r))
 			w.Teardown()
